@@ -29,7 +29,7 @@ package plugins
 
 // C26 types. tenc(p, t): the wire message p carries the type t — same TypeID; a list carries its element type (or
 // none), a struct its fields by name and type in order, a tuple its element types, a union its alternatives, in order.
-//@ spec rec tenc(p *Type, t octosql.Type) bool = p != nil && p.TypeId == t.TypeID && (t.TypeID == 7 ==> (t.List.Element == nil ==> p.List == nil) && (t.List.Element != nil ==> tenc(p.List, deref(t.List.Element)))) && (t.TypeID == 8 ==> len(p.Struct) == len(t.Struct.Fields) && forall(j, 0, len(t.Struct.Fields), p.Struct[j] != nil && p.Struct[j].Name == t.Struct.Fields[j].Name && tenc(p.Struct[j].Type, t.Struct.Fields[j].Type))) && (t.TypeID == 9 ==> len(p.Tuple) == len(t.Tuple.Elements) && forall(j, 0, len(t.Tuple.Elements), tenc(p.Tuple[j], t.Tuple.Elements[j]))) && (t.TypeID == 10 ==> len(p.Union) == len(t.Union.Alternatives) && forall(j, 0, len(t.Union.Alternatives), tenc(p.Union[j], t.Union.Alternatives[j])))
+//@ spec rec tenc(p *Type, t octosql.Type) bool = p != nil && p.TypeId == t.TypeID && (t.TypeID == 7 ==> (t.List.Element == nil ==> p.List == nil) && (t.List.Element != nil ==> p.List != nil && tenc(p.List, deref(t.List.Element)))) && (t.TypeID == 8 ==> len(p.Struct) == len(t.Struct.Fields) && forall(j, 0, len(t.Struct.Fields), p.Struct[j] != nil && p.Struct[j].Name == t.Struct.Fields[j].Name && tenc(p.Struct[j].Type, t.Struct.Fields[j].Type))) && (t.TypeID == 9 ==> len(p.Tuple) == len(t.Tuple.Elements) && forall(j, 0, len(t.Tuple.Elements), tenc(p.Tuple[j], t.Tuple.Elements[j]))) && (t.TypeID == 10 ==> len(p.Union) == len(t.Union.Alternatives) && forall(j, 0, len(t.Union.Alternatives), tenc(p.Union[j], t.Union.Alternatives[j])))
 //@ spec rec tshaped(t octosql.Type) bool = 0 <= t.TypeID && t.TypeID <= 11 && (t.TypeID == 7 && t.List.Element != nil ==> tshaped(deref(t.List.Element))) && (t.TypeID == 8 ==> forall(j, 0, len(t.Struct.Fields), tshaped(t.Struct.Fields[j].Type))) && (t.TypeID == 9 ==> forall(j, 0, len(t.Tuple.Elements), tshaped(t.Tuple.Elements[j]))) && (t.TypeID == 10 ==> forall(j, 0, len(t.Union.Alternatives), tshaped(t.Union.Alternatives[j])))
 //@ func NativeTypeToProto
 //@   requires shape: tshaped(t)
@@ -85,3 +85,57 @@ package plugins
 //@   ensures unknown: expr.ExpressionType == 2 && !ok ==> !outOk
 //@   ensures sticky: !old(outOk) ==> !outOk
 //@   ensures chosen: expr.ExpressionType == 2 && old(outOk) && outOk ==> exists(j, 0, len(details.Descriptors), matches(details.Descriptors[j], receivedDescriptor))
+
+// C26 round trip: penc determines the carried value up to the zone of a Time — two values carried by one message are
+// equal component by component (veq). With NativeValueToProto's and ToNativeValue's contracts:
+// veq(NativeValueToProto(v).ToNativeValue(), v) for every shaped v. Induction over the message (sequences by length).
+//@ spec rec veq(a octosql.Value, b octosql.Value) bool = a.TypeID == b.TypeID && (a.TypeID == 1 ==> a.Int == b.Int) && (a.TypeID == 2 ==> same(a.Float, b.Float)) && (a.TypeID == 3 ==> a.Boolean == b.Boolean) && (a.TypeID == 4 ==> a.Str == b.Str) && (a.TypeID == 5 ==> a.Time.ns == b.Time.ns) && (a.TypeID == 6 ==> a.Duration == b.Duration) && (a.TypeID == 7 ==> len(a.List) == len(b.List) && forall(j, 0, len(a.List), veq(a.List[j], b.List[j]))) && (a.TypeID == 8 ==> len(a.Struct) == len(b.Struct) && forall(j, 0, len(a.Struct), veq(a.Struct[j], b.Struct[j]))) && (a.TypeID == 9 ==> len(a.Tuple) == len(b.Tuple) && forall(j, 0, len(a.Tuple), veq(a.Tuple[j], b.Tuple[j])))
+//@ lemma pencFunctionalSeq(ps []*Value, a []octosql.Value, b []octosql.Value, n int)
+//@   requires 0 <= n && n <= len(ps) && n <= len(a) && n <= len(b)
+//@   requires forall(j, 0, n, penc(ps[j], a[j]) && penc(ps[j], b[j]))
+//@   ensures elementwise: forall(j, 0, n, veq(a[j], b[j]))
+//@   use pencFunctionalSeq(ps, a, b, n-1)
+//@   use pencFunctional(ps[n-1], a[n-1], b[n-1])
+//@ lemma pencFunctional(p *Value, a octosql.Value, b octosql.Value)
+//@   requires penc(p, a) && penc(p, b)
+//@   case Null: a.TypeID == 0
+//@   case Int: a.TypeID == 1
+//@   case Float: a.TypeID == 2
+//@   case Boolean: a.TypeID == 3
+//@   case String: a.TypeID == 4
+//@   case Time: a.TypeID == 5
+//@   case Duration: a.TypeID == 6
+//@   case List: a.TypeID == 7
+//@   case Struct: a.TypeID == 8
+//@   case Tuple: a.TypeID == 9
+//@   case Other: a.TypeID < 0 || a.TypeID > 9
+//@   ensures determined: veq(a, b)
+//@   use pencFunctionalSeq(p.List, a.List, b.List, len(a.List))
+//@   use pencFunctionalSeq(p.Struct, a.Struct, b.Struct, len(a.Struct))
+//@   use pencFunctionalSeq(p.Tuple, a.Tuple, b.Tuple, len(a.Tuple))
+// The same for types: tenc determines the carried type (teqv: component by component).
+//@ spec rec teqv(a octosql.Type, b octosql.Type) bool = a.TypeID == b.TypeID && (a.TypeID == 7 ==> (a.List.Element == nil) == (b.List.Element == nil) && (a.List.Element != nil ==> teqv(deref(a.List.Element), deref(b.List.Element)))) && (a.TypeID == 8 ==> len(a.Struct.Fields) == len(b.Struct.Fields) && forall(j, 0, len(a.Struct.Fields), a.Struct.Fields[j].Name == b.Struct.Fields[j].Name && teqv(a.Struct.Fields[j].Type, b.Struct.Fields[j].Type))) && (a.TypeID == 9 ==> len(a.Tuple.Elements) == len(b.Tuple.Elements) && forall(j, 0, len(a.Tuple.Elements), teqv(a.Tuple.Elements[j], b.Tuple.Elements[j]))) && (a.TypeID == 10 ==> len(a.Union.Alternatives) == len(b.Union.Alternatives) && forall(j, 0, len(a.Union.Alternatives), teqv(a.Union.Alternatives[j], b.Union.Alternatives[j])))
+//@ lemma tencFunctionalSeq(ps []*Type, a []octosql.Type, b []octosql.Type, n int)
+//@   requires 0 <= n && n <= len(ps) && n <= len(a) && n <= len(b)
+//@   requires forall(j, 0, n, tenc(ps[j], a[j]) && tenc(ps[j], b[j]))
+//@   ensures elementwise: forall(j, 0, n, teqv(a[j], b[j]))
+//@   use tencFunctionalSeq(ps, a, b, n-1)
+//@   use tencFunctional(ps[n-1], a[n-1], b[n-1])
+//@ lemma tencFunctionalFields(ps []*StructField, a []octosql.StructField, b []octosql.StructField, n int)
+//@   requires 0 <= n && n <= len(ps) && n <= len(a) && n <= len(b)
+//@   requires forall(j, 0, n, ps[j] != nil && ps[j].Name == a[j].Name && ps[j].Name == b[j].Name && tenc(ps[j].Type, a[j].Type) && tenc(ps[j].Type, b[j].Type))
+//@   ensures elementwise: forall(j, 0, n, a[j].Name == b[j].Name && teqv(a[j].Type, b[j].Type))
+//@   use tencFunctionalFields(ps, a, b, n-1)
+//@   use tencFunctional(ps[n-1].Type, a[n-1].Type, b[n-1].Type)
+//@ lemma tencFunctional(p *Type, a octosql.Type, b octosql.Type)
+//@   requires tenc(p, a) && tenc(p, b)
+//@   case List: a.TypeID == 7
+//@   case Struct: a.TypeID == 8
+//@   case Tuple: a.TypeID == 9
+//@   case Union: a.TypeID == 10
+//@   case Scalar: a.TypeID < 7 || a.TypeID > 10
+//@   ensures determined: teqv(a, b)
+//@   use tencFunctional(p.List, deref(a.List.Element), deref(b.List.Element))
+//@   use tencFunctionalFields(p.Struct, a.Struct.Fields, b.Struct.Fields, len(a.Struct.Fields))
+//@   use tencFunctionalSeq(p.Tuple, a.Tuple.Elements, b.Tuple.Elements, len(a.Tuple.Elements))
+//@   use tencFunctionalSeq(p.Union, a.Union.Alternatives, b.Union.Alternatives, len(a.Union.Alternatives))
